@@ -243,6 +243,11 @@ func (s *StateMachine) CheckSignature(tx *lib.Transaction, authorizedSigners [][
 	if e != nil {
 		return nil, ErrInvalidPublicKey(e)
 	}
+	// the public key isn't covered by the sign bytes, so only its canonical encoding is accepted: another encoding of
+	// the same key (ex. the SEC1 0x04-prefixed form of an ethereum key) would give the same signed content a new identity
+	if !bytes.Equal(publicKey.Bytes(), tx.Signature.PublicKey) {
+		return nil, ErrInvalidPublicKey(fmt.Errorf("public key is not in its canonical encoding"))
+	}
 	// Legacy "RLP" was historically an ordinary memo for non-Ethereum keys.
 	// RLP.V2 is reserved and always requires an Ethereum key.
 	_, hasEthPubKey := publicKey.(*crypto.ETHSECP256K1PublicKey)
